@@ -64,6 +64,11 @@
 (*         a hand-made yield: the own suspend point is DISCARDED (coroutine*)
 (*         mode: pushed to the back of the deque, suspend_point.h:130-135),*)
 (*         then the coroutine suspends and control returns to the resumer  *)
+(*   pc    co_await dead, a thread pool that is already STOPPED: the       *)
+(*         request is dropped inside await_suspend, the closure's deleter  *)
+(*         hands the coroutine to coro_queue::resume (thread_pool.h:116-   *)
+(*         120,358-364): queued BEHIND whatever is ready already; when its *)
+(*         turn comes await_resume throws await_canceled_exception         *)
 (*   cd k  coro_queue::create_suspend_point([&]{prom[k]();});  discarded   *)
 (*   ca k  co_await coro_queue::create_suspend_point([&]{prom[k]();});     *)
 (*   ct k  try { create_suspend_point([&]{prom[k](); throw X;}); }         *)
@@ -338,7 +343,7 @@ Choices(c) ==
       \cup KS("hm", {k \in AllowedF : Prune => fut[k].s = "pend"})
       \cup K0("hd", created < N)
       \cup K0("hw", Prune => acc[c] # <<>>) \cup K0("hf", (Prune => acc[c] # <<>>) /\ ~OwnHeld(c))
-      \cup K0("hs", ~OwnHeld(c)) \cup K0("hy", TRUE)
+      \cup K0("hs", ~OwnHeld(c)) \cup K0("hy", TRUE) \cup K0("pc", TRUE)
       \cup KS("cd", {k \in AllowedF : Prune => fut[k].s = "pend"})
       \cup KS("ca", {k \in AllowedF : Prune => fut[k].s = "pend"})
       \cup KS("ct", {k \in AllowedF : Prune => fut[k].s = "pend"})
@@ -641,6 +646,18 @@ SelfYield(c) ==
     /\ UNCHANGED <<bind, created, inst, fut, parked, mtx, qu, nph, disc>>
     /\ UNCHANGED ext
 
+(* co_await of a STOPPED thread pool: thread_pool::enqueue drops the closure (thread_pool.h:358-364), the
+   closure's deleter runs still inside await_suspend and calls coro_queue::resume(h) (thread_pool.h:
+   116-120): coroutine mode is on, so the coroutine is appended to the deque; await_suspend returns
+   void, control goes back to the resumer; the cancelled coroutine neither pre-empts anybody nor
+   overtakes the coroutines queued before it *)
+PoolCancelled(c) ==
+    /\ Can(c, <<"pc", 0>>) /\ Pick(c, <<"pc", 0>>)
+    /\ Back([st EXCEPT ![c] = "ready"], pc, [mid EXCEPT ![c] = TRUE], EvS(EvB(c), c), Append(queue, c))
+    /\ enqs' = Append(enqs, c) /\ ndeq' = ndeq /\ nrd' = Bump(nrd, <<c>>)
+    /\ UNCHANGED <<bind, created, inst, fut, parked, mtx, qu, nph, disc>>
+    /\ UNCHANGED ext
+
 (* coro_queue::create_suspend_point(fn) called by a running coroutine (suspend_point.h:322-340): fn =
    prom[k]() with the suspend point discarded -> the released handles are pushed; the new entries are
    then taken from the BACK of the deque into the returned suspend point, which therefore holds them in
@@ -934,7 +951,7 @@ Next ==
     \/ (\E a \in 0..K : NatCreate(a) \/ \E kd \in InstKinds : NatInstall(kd, a))
     \/ IqNext \/ Flush \/ IqExit \/ PoolCoro \/ PoolObs \/ PoolEnd
     \/ \E c \in Cor :
-         \/ Pause(c) \/ Park(c) \/ Unpark(c) \/ Return(c) \/ Throw(c) \/ HoldSelf(c) \/ SelfYield(c)
+         \/ Pause(c) \/ Park(c) \/ Unpark(c) \/ Return(c) \/ Throw(c) \/ HoldSelf(c) \/ SelfYield(c) \/ PoolCancelled(c)
          \/ SpawnDetachDiscard(c) \/ SpawnDetachAwait(c) \/ SpawnCoAwait(c)
          \/ StartNested(c) \/ StartReturn(c)
          \/ QPop(c) \/ QPushDiscard(c) \/ QPushAwait(c)
